@@ -271,7 +271,7 @@ def main():
             if problems:
                 out["bad"].append({"primitive": c.prim, "configuration": c.tag, "scalarisation": sname,
                                    "what": "; ".join(problems[:3]), "z0": z0.tolist(), "v": v.tolist(),
-                                   "site": {"primitive": c.prim, "kind": "second-order"}})
+                                   "site": {"primitive": c.prim, "kind": "second-order", "configuration": c.tag}})
                 dist(sname + ":WRONG")
     out["keys"] = sorted(set(out["keys"]))
     print(json.dumps(out, default=str))
